@@ -36,7 +36,7 @@ LF = "'__derive_more_into"
 # ------------------------------------------------------------------ types
 # a type is: str (an atom, any non-tuple Rust type), tuple (a tuple type), int (the macro's __FromT<k>)
 
-ATOM = {"skip": 0, "ignore": 1, "forward": 2}
+ATOM = {"skip": 0, "ignore": 1, "forward": 2, "types": 3}      # `types`: the word of the legacy `#[from(types(..))]`
 for _i in range(NF):
     for _b, _n in (("F", 10), ("Pa", 20), ("Pb", 30), ("Qa", 40), ("Qb", 50), ("Ra", 60), ("Rb", 70)):
         ATOM["%s%d" % (_b, _i)] = _n + _i
@@ -44,7 +44,7 @@ for _k, _t in enumerate(["T", "U", "i32", "u8", "String", "Vec<T>", "&'static st
     ATOM[_t] = 80 + _k
 # the same universe types reached through a path: the first segment collides with attribute words / legacy names
 PATH_PREFIXES = ["types", "self", "crate", "crate::m", "m::types", "forward", "skip", "ignore", "r#ref", "owned", "ref_mut"]
-INTO_SAFE_PREFIXES = PATH_PREFIXES[:9]      # `owned::X` / `ref_mut::X` at the top level of #[into(..)]: see the report
+INTO_SAFE_PREFIXES = PATH_PREFIXES           # `owned::X` / `ref_mut::X` are types since ce243e7 (keyword only if no `::` follows)
 _n = 1000
 for _p in PATH_PREFIXES:
     for _b in ("F", "Pa", "Pb", "Qa", "Qb", "Ra", "Rb"):
@@ -318,18 +318,27 @@ def coq_from_attr(a):
     return "APath" if a is None else "(AArgs %s)" % coq_list(coq_ty(t) for t in a)
 
 
+HEAD_COQ = {"owned": "HOwned", "ref": "HRef", "ref_mut": "HRefMut"}
+
+
 def coq_into_attr(a):
+    """token-level view of one `#[into..]` attribute: per argument the leading identifier, whether `::` follows it,
+    the parenthesised group, and the type the tokens spell; the model's classify_arg (into.rs:383-391) decides which
+    arguments are wrappers"""
     if a is None:
-        return "IPath"
+        return "TPath"
     its = []
     for it in a:
         if it[0] == "t":
-            its.append("(CType %s)" % coq_ty(it[1]))
-        elif it[2] is None:
-            its.append("(CKind %s None)" % KIND_COQ[it[1]])
+            t = it[1]
+            first = t.split("::", 1)[0] if isinstance(t, str) else ""
+            head = HEAD_COQ.get(first, "HOther")
+            sep = "true" if isinstance(t, str) and "::" in t and not t.startswith("::") and "<" not in first else "false"
+            its.append("{| ra_head := %s; ra_pathsep := %s; ra_group := None; ra_ty := %s |}" % (head, sep, coq_ty(t)))
         else:
-            its.append("(CKind %s (Some %s))" % (KIND_COQ[it[1]], coq_list(coq_ty(t) for t in it[2])))
-    return "(IArgs %s)" % coq_list(its)
+            grp = "None" if it[2] is None else "(Some %s)" % coq_list(coq_ty(t) for t in it[2])
+            its.append("{| ra_head := %s; ra_pathsep := false; ra_group := %s; ra_ty := (TAtom 3) |}" % (HEAD_COQ[it[1]], grp))
+    return "(TArgs %s)" % coq_list(its)
 
 
 def coq_expr(case):
@@ -338,13 +347,13 @@ def coq_expr(case):
         vs = ["{| v_attrs := %s; v_fields := %s |}" % (coq_list(coq_from_attr(a) for a in v["attrs"]),
                                                       coq_list(coq_ty(t) for t in v["fields"]))
               for v in case["variants"]]
-        return "from_report (IEnum %s)" % coq_list(vs)
+        return "from_report_diag (IEnum %s)" % coq_list(vs)
     if d == "From":
-        return "from_report (IStruct %s %s)" % (coq_list(coq_from_attr(a) for a in case["attrs"]),
+        return "from_report_diag (IStruct %s %s)" % (coq_list(coq_from_attr(a) for a in case["attrs"]),
                                                 coq_list(coq_ty(t) for t in case["fields"]))
     if d == "Into":
         fs = ["(%s, %s)" % (coq_ty(f[0]), coq_list(coq_into_attr(a) for a in f[1])) for f in case["fields"]]
-        return "into_report %s %s" % (coq_list(coq_into_attr(a) for a in case["sattrs"]), coq_list(fs))
+        return "into_report_tok %s %s" % (coq_list(coq_into_attr(a) for a in case["sattrs"]), coq_list(fs))
     return "ctor_report %s" % coq_list(coq_ty(t) for t in case["fields"])
 
 
@@ -399,6 +408,23 @@ def model_into(t):
                     "inits": [(e[0], py_ty(e[1]), py_ty(e[2])) for e in d["id_inits"]],
                     "sem": None if s is None else py_value(s)})
     return out
+
+
+def model_diag(t):
+    """Coq `option vdiag` -> None | the beginning (and end) of the message validate_type gives"""
+    t = opt(t)
+    if t is None:
+        return None
+    if t == "DUnitForOne":
+        return ("wrong tuple length: expected 1, found 0. Consider adding 1 more type: `(_)`", "")
+    if t[0] == "DAddMore":
+        e, f = t[1], t[2]
+        return ("wrong tuple length: expected %d, found %d. Consider adding %d more type%s: `(" % (e, f, e - f, "s" if e - f > 1 else ""),
+                ", ".join(["_"] * (e - f)) + ")`")
+    if t[0] == "DRemoveLast":
+        e, f = t[1], t[2]
+        return ("wrong tuple length: expected %d, found %d. Consider removing last %d type%s: `(" % (e, f, f - e, "s" if f - e > 1 else ""), ")`")
+    return ("expected tuple: `(", ", " + ", ".join(["_"] * (t[1] - 1)) + ")`")
 
 
 def model_ctor(t):
@@ -662,6 +688,19 @@ def listed_arity(case):
     return out
 
 
+SPLIT_KEY = "listed-tuple-for-single-field-split"
+
+
+def split_scope(case):
+    """a tuple type listed for exactly ONE participating field (From: struct/variant with one field; Into: a field-level
+    list, or a struct-level list with one non-skipped field).  validate_type splits such a type into its elements (known
+    finding SPLIT_KEY).  The one-element tuple listed for Into keeps its own key (into-listed-one-tuple-flattened)."""
+    if case["derive"] not in ("From", "Into"):
+        return False
+    return any(n == 1 and isinstance(t, tuple) and (case["derive"] == "From" or len(t) != 1)
+               for (n, t, _v) in listed_arity(case))
+
+
 def has_listed_tuple(case):
     return any(isinstance(t, tuple) and len(t) >= 2 for (_n, t, _v) in listed_arity(case))
 
@@ -857,7 +896,7 @@ def sole_tuple_field(rng):
 
 def spell_path(rng, t, into):
     """sometimes reach a universe type through a module path whose first segment is an attribute word"""
-    if isinstance(t, str) and t[:1] in "FPQR" and "::" not in t and rng.random() < 0.18:
+    if isinstance(t, str) and t[:1] in "FPQR" and "::" not in t and rng.random() < 0.28:
         return "%s::%s" % (rng.choice(INTO_SAFE_PREFIXES if into else PATH_PREFIXES), t)
     return t
 
@@ -876,6 +915,8 @@ def listed_from(rng, ftys, rt):
         return f if rt or rng.random() < 0.7 else rng.choice(["i32", "String", "X"])
     cs = [spell_path(rng, comp(f), False) for f in ftys]
     if len(cs) == 1:
+        if rng.random() < 0.04 and not isinstance(cs[0], tuple):
+            return (cs[0],)            # a one-element tuple type listed for a single field
         return cs[0]
     return tuple(cs)
 
@@ -905,9 +946,10 @@ def gen_from_attrs(rng, ftys, rt, variant):
     if not rt and rng.random() < 0.12:
         # malformed / merging / arity streams
         pool = [None, ["skip"], ["ignore"], ["forward"], [listed_from(rng, ftys, False)], [bad_listed(rng, ftys)],
-                [listed_from(rng, ftys, False), bad_listed(rng, ftys)], [], ["skip", "X"], ["forward", "X"]]
+                [listed_from(rng, ftys, False), bad_listed(rng, ftys)], [], ["skip", "X"], ["forward", "X"],
+                ["types"], ["types", "X"], ["X", "types"], [listed_from(rng, ftys, False), "types"]]
         return [rng.choice(pool) for _ in range(rng.choice([1, 1, 2, 2, 3]))]
-    if rt and len(ftys) == 1 and isinstance(ftys[0], tuple):
+    if rt and len(ftys) == 1 and isinstance(ftys[0], tuple) and rng.random() < 0.5:
         return rng.choice([[], [], [["forward"]]] + ([[None], [["skip"]]] if variant else []))
     if variant:
         if r < 0.38:
@@ -982,9 +1024,8 @@ def gen_conv_attrs(rng, src, rt, allow_empty_list):
     """attributes describing conversions of the fields `src` (types)"""
     n_attr = rng.choice([1, 1, 1, 2])
     attrs = []
-    # run-time stream: no listed type when nothing is converted, nor when the only converted field is a tuple
-    # (a listed tuple type for ONE field is split into its elements by validate_type: see the report)
-    no_listed = rt and (len(src) == 0 or (len(src) == 1 and isinstance(src[0], tuple)))
+    # run-time stream: no listed type when nothing is converted
+    no_listed = rt and len(src) == 0
     for _ in range(n_attr):
         r = rng.random()
         if r < 0.2:
@@ -1638,12 +1679,13 @@ def rt_eligible(case, model):
         shapes = {None: case.get("fields")}
         if case["kind"] == "enum":
             shapes = {k: v["fields"] for k, v in enumerate(case["variants"])}
+        split = split_scope(case)
         for a in range(len(model)):
             fa = shapes[model[a]["variant"]]
             if model[a]["sem"] is None or len(model[a]["inits"]) != len(fa):
                 return False
             for (f, t) in model[a]["trace"]:
-                if not isinstance(f, int) and f != t and ("owned", f, t) not in MARK:
+                if not split and not isinstance(f, int) and f != t and ("owned", f, t) not in MARK:
                     return False
             for b in range(a):
                 if may_overlap(model[a]["src"], fa, model[b]["src"], shapes[model[b]["variant"]]):
@@ -1651,13 +1693,14 @@ def rt_eligible(case, model):
         return True
     if d == "Into":
         seen = set()
+        split = split_scope(case)
         for m in model:
             k = (m["kind"], into_target_src(m["kind"], m["tys"]))
-            if k in seen or m["sem"] is None or len(m["inits"]) != len(m["tys"]):
+            if k in seen or m["sem"] is None or (len(m["inits"]) != len(m["tys"]) and not split):
                 return False
             seen.add(k)
             for (_i, f, t) in m["inits"]:
-                if f != t and (m["kind"], f, t) not in MARK:
+                if f != t and (m["kind"], f, t) not in MARK and not split:
                     return False
         return True
     return True
@@ -1701,6 +1744,10 @@ def run(tier, seed, replay):
     outcomes = {}
     for c, r, t in zip(cases, real, terms):
         d = c["derive"]
+        diag = None
+        if d != "Constructor":
+            t, dg = t
+            diag = model_diag(dg)
         m = model_from(t) if d == "From" else (model_into(t) if d == "Into" else model_ctor(t))
         models.append(m)
         chk.count(("ip", item_src(c), d), nontrivial(c))
@@ -1720,6 +1767,8 @@ def run(tier, seed, replay):
         if r_out != "ok" and c.get("rt"):
             cls = "listed-path-type-rejected" if has_path_listed(c) else \
                 ("listed-tuple-rejected" if has_listed_tuple(c) else "documented-input-rejected")
+            if split_scope(c) and "wrong tuple length: expected 1, found 0" in str(r.get("err")):
+                cls = SPLIT_KEY            # `()` listed for the one field of type `()`
             chk.violation(cls, {"case": c, "item": item_src(c), "code": r},
                           "the documented, well-formed `%s` is not accepted by derive(%s): %s" %
                           (item_src(c), d, r.get("err") or r.get("panic")))
@@ -1737,6 +1786,17 @@ def run(tier, seed, replay):
             tied.append(False)
             continue
         if r_out != "ok":
+            # the diagnostic: when the model says the first failure is a refusal by validate_type, the real message
+            # must be that one, with the model's numbers
+            if r_out == "err" and diag is not None:
+                msg = str(r.get("err"))
+                if not (msg.startswith(diag[0]) and msg.endswith(diag[1])):
+                    chk.violation("tie-inproc-diagnostic", {"case": c, "item": item_src(c), "model": diag, "code": msg},
+                                  "`%s`: the model expects the diagnostic `%s...%s`, the code says `%s`" %
+                                  (item_src(c), diag[0], diag[1], msg))
+                    tied.append(False)
+                    continue
+                chk.bump("diagnostic/" + diag[0].split(".")[0].split(":")[0] + ("/" + diag[0].split("Consider ")[1].split(" ")[0] if "Consider" in diag[0] else ""))
             tied.append(True)
             continue
         exp = finish_expected(expected_from_impls(c, m) if d == "From" else
@@ -1768,7 +1828,7 @@ def run(tier, seed, replay):
 
     # ---- tie 2 + oracle: the real macro under rustc, run
     mods, specs, owner = [], {}, {}
-    mods2 = []
+    mods2, mods3 = [], []
     n_mod = 0
     for idx, (c0, m0, ok) in enumerate(zip(cases, models, tied)):
         cid = "c%d" % idx
@@ -1801,7 +1861,8 @@ def run(tier, seed, replay):
             src, obs = rt_into(c, cid, m, rng, None, c0)
         else:
             src, obs = rt_roundtrip(c, cid, m)
-        mods.append((cid, src))
+        # inputs of the known finding SPLIT_KEY get a crate of their own (their expansion is expected not to type-check)
+        (mods3 if split_scope(c) else mods).append((cid, src))
         for ft in features(c, m):
             chk.bump("rt-feature/" + ft)
         for o in obs:
@@ -1810,6 +1871,10 @@ def run(tier, seed, replay):
         n_mod += 1
     chk.log("%d modules, %d observations for the run-time crate" % (n_mod, len(specs)))
     observed = run_rt_crate(chk, mods, cases, "c08rt")
+    if mods3:
+        chk.log("%d cases list a tuple type for a single field (separate crate)" % len(mods3))
+        observed.update(run_rt_crate(chk, mods3, cases, "c08rt3"))
+        common.cleanup_scratch("c08rt3")
     if mods2:
         chk.log("%d untied cases observed through the documented rules alone" % len(mods2))
         observed.update(run_rt_crate(chk, mods2, cases, "c08rt2"))
@@ -1915,7 +1980,8 @@ def run_rt_crate(chk, mods, cases, name):
         line = PRELUDE.count("\n") + 1
         for cid, src in mods:
             text = "mod %s {\nuse super::*;\n%s\n}\n" % (cid, src)
-            spans.append((line, line + text.count("\n") - 1, cid))
+            run_line = line + 2 + src[:src.rindex("pub fn run()")].count("\n")
+            spans.append((line, line + text.count("\n") - 1, cid, run_line))
             parts.append(text)
             line += text.count("\n")
         parts.append("fn main() {\n%s\n}\n" % "\n".join("%s::run();" % cid for cid, _ in mods))
@@ -1945,16 +2011,21 @@ def run_rt_crate(chk, mods, cases, name):
             for sp in msg.get("spans", []):
                 if not sp.get("file_name", "").endswith("main.rs"):
                     continue
-                for (a, b, cid) in spans:
+                for (a, b, cid, run_line) in spans:
                     if a <= sp["line_start"] <= b:
-                        bad.setdefault(cid, (msg.get("rendered") or msg.get("message") or "")[:1500])
+                        # an error located in the item itself comes from the derive's expansion, one located in
+                        # `run()` from the documented way of using the impls
+                        where = "expansion" if sp["line_start"] < run_line else "use"
+                        bad.setdefault(cid, (where, (msg.get("rendered") or msg.get("message") or "")[:1500]))
         if not bad:
             chk.violation("rt-crate-does-not-build", {"output": (err or "")[-3000:]},
                           "the generated crate does not build and the error is in no case module", no_input=True)
             return observed
-        for cid, text in bad.items():
+        for cid, (where, text) in bad.items():
             c = cases[int(re.match(r"c(\d+)", cid).group(1))]
-            cls = "rt-compile-error-" + c["derive"].lower()
+            cls = ("expansion-ill-typed-" if where == "expansion" else "rt-compile-error-") + c["derive"].lower()
+            if where == "expansion" and split_scope(c):
+                cls = SPLIT_KEY
             if c["derive"] == "Into" and has_one_tuple(c):
                 cls = "into-listed-one-tuple-flattened"
             chk.violation(cls, {"case": c, "item": item_src(c), "rustc": text},
